@@ -117,6 +117,9 @@ MCCat17 == <<
   [T |-> TA, vals |-> <<TAz, TAv>>, cfg |-> "mkkind"], [T |-> MkT, vals |-> <<I(0), Neg(1)>>, cfg |-> "mkkind"],
   [T |-> SlM, vals |-> <<[nil |-> TRUE, e |-> <<>>], [nil |-> FALSE, e |-> <<I(1), I(128)>>]>>, cfg |-> "mkkind"],
   \* a codec registered for a struct type under a tag, used from inside that very type (a tagged self-reference) and from another struct
+  \* pointer-shaped values (stored directly in the interface word) marshalled by value through a configured instance
+  [T |-> St(<<F("P", 1, "", [k |-> "ptr", e |-> MkT])>>), vals |-> << <<NilP>>, <<[nil |-> FALSE, v |-> I(5)]>> >>, cfg |-> "mk"],
+  [T |-> St(<<F("P", 1, "", [k |-> "ptr", e |-> TimeT])>>), vals |-> << <<NilP>>, <<[nil |-> FALSE, v |-> [sec |-> I(1000), nsec |-> 5]]>> >>, cfg |-> "pt"],
   [T |-> RefT, vals |-> <<RefZ, RefChild>>, cfg |-> "rf"],
   [T |-> St(<<F("Who", 1, "rf", [k |-> "ptr", e |-> RefT]), F("N", 2, "", IntT)>>), vals |-> << <<NilP, I(0)>>, <<[nil |-> FALSE, v |-> RefRoot], I(4)>> >>, cfg |-> "rf"]
 >>
@@ -131,7 +134,7 @@ ScopedDiffer == /\ Encode(CfgN("default"), Bake(TA, ""), TAv) # Encode(CfgN("mk"
                 /\ Encode(CfgN("default"), Bake(TA, ""), TAv) # Encode(CfgN("mkkind"), Bake(TA, ""), TAv)
 AllIdx == 1..Len(Cat)
 QuickIdx == {1, 4, 5, 6, 9, 13, 14}
-Quick17 == {1, 2, 5, 7, 9, 16, 19}
+Quick17 == {1, 2, 5, 7, 16, 19, 21}
 View == sysvars
 ASSUME PrintT(<<"CATALOGUE", ToJson(Cat)>>)
 \* a history is emitted when it cannot be extended (MaxSteps reached); prefixes are judged as part of it
